@@ -48,8 +48,8 @@ CHECKS["C02"] = {
     "engine": "HIST",
     "technique": "explicit enumeration of all operation histories to a depth bound on the real Collection, full index<->document comparison against a BTreeMap model",
     "design_ref": "DESIGN.md 5/C02, 2.4",
-    "text": "Every history of length <= 3 (quick) / <= 5 as far as the budget allows (thorough) over a 26-operation alphabet (accepted and rejected add/update/remove incl. to/from null, array and text fields, flush, B-tree and BM25 compaction, clean reopen, index create+backfill and index removal through the open callback) runs on a fresh database; each call's result is compared with the sequential model, and after the last step every index is compared with the stored documents in both directions (Eq/Ge/Lt probes at every model key, every key the index lists and boundary constants; every vocabulary term in BM25; HNSW element count and dead/duplicate ids; ids/len/contains/get/stats), on the live handle and again after flush + clean reopen. Crash-recovered states get the same comparison inside the C01 check. Exhaustive below the depth bound: phantoms and holes depend on the order of update/rollback steps across three index families, which is exactly what enumerating all short histories covers.",
-    "note": "Documents from 6 templates / 14 update templates over one schema (unique scalar, duplicate scalar, optional, array, unique array, text, vector). Map-keyed indexed fields are not in the fixture. HNSW is checked for soundness (no dead or duplicate id, exact element count), not for recall.",
+    "text": "Every history of length <= 3 (quick) / <= 5 as far as the budget allows (thorough) over a 28-operation alphabet (accepted and rejected add/update/remove incl. to/from null, array, wildcard-map (key set replaced / emptied) and text fields, flush, B-tree and BM25 compaction, clean reopen, index create+backfill and index removal through the open callback) runs on a fresh database; each call's result is compared with the sequential model, and after the last step every index is compared with the stored documents in both directions (Eq/Ge/Lt probes at every model key, every key the index lists and boundary constants; every vocabulary term in BM25; HNSW element count and dead/duplicate ids; ids/len/contains/get/stats), on the live handle and again after flush + clean reopen. Crash-recovered states get the same comparison inside the C01 check. Exhaustive below the depth bound: phantoms and holes depend on the order of update/rollback steps across three index families, which is exactly what enumerating all short histories covers.",
+    "note": "Documents from 6 templates / 14 update templates over one schema (unique scalar, duplicate scalar, optional, array, unique array, wildcard map indexed by its keys, text, vector). HNSW is checked for soundness (no dead or duplicate id, exact element count), not for recall.",
     "parts": [
         {"part": "hist", "crate": "vdb", "bin": "c02_hist", "args": ["--property", "C02"], "budget_quick": 30, "budget_thorough": 1500},
     ],
